@@ -124,6 +124,17 @@ CHECKS["C12"] = (
     "of that element in residues and termini (and in modifications only when requested) times the isotope mass "
     "difference from the independent Nist table.",
     "Assumes TLC and the projection. Static targets are single residues / N-Term / C-Term.", "DESIGN.md §6 C12")
+CHECKS["C18"] = (
+    "TLA+ clauses over the parsed result of condense_to_mass_mods (Trace_Mass!CondenseFails: same residues, numeric "
+    "modifications only, mass preserved within precision x shifts, shifts only where the condensed/label-expanded "
+    "annotation is modified, unmodified unchanged) + named deviation for the recorded finding",
+    "TLC judges every recorded call: the result must parse to the same residues with only numeric shifts, the real "
+    "neutral masses of input and result must agree within 10^-precision per written shift, and (when every "
+    "modification is localised) shifts must sit exactly on the residues / termini that the specification's condensed "
+    "form modifies. The recorded finding is matched only by outputs of exactly the defective shape (own shift + one "
+    "common extra on every residue).",
+    "Assumes TLC and the projection; masses compared are the library's own (C02 ties them to first principles).",
+    "DESIGN.md §6 C18")
 NOT_YET = "check not built yet in this round (planned with the TLA+ technique, see DESIGN.md §6)"
 
 
